@@ -96,15 +96,42 @@ pub fn gen_val(rng: &mut Rng, ty: &Ty) -> Val {
             Val::Key(k)
         }
         Ty::Arr(n) => Val::Arr(rng.bytes(*n)),
+        Ty::Bool => Val::Bool(rng.chance(1, 2)),
+        Ty::Nested(ts) => Val::Nested(ts.iter().map(|t| gen_val(rng, t)).collect()),
     }
 }
 
 fn be_bytes(v: &Val) -> Vec<u8> {
+    if let Val::Nested(vs) = v {
+        return vs.iter().flat_map(be_bytes).collect();
+    }
     let mut b = v.le_bytes();
     if matches!(v, Val::U(..) | Val::I(..)) {
         b.reverse();
     }
     b
+}
+
+/// Values of `shape` (all-array fields) whose concatenation is `flat`.
+fn split_into(shape: &Shape, flat: &[u8]) -> Vec<Val> {
+    let mut off = 0;
+    shape
+        .tys
+        .iter()
+        .map(|t| match t {
+            Ty::Arr(n) => {
+                let v = Val::Arr(flat[off..off + n].to_vec());
+                off += n;
+                v
+            }
+            Ty::Key => {
+                let v = Val::Key(flat[off..off + 32].try_into().unwrap());
+                off += 32;
+                v
+            }
+            _ => unreachable!("resplit groups only hold byte-array / key fields"),
+        })
+        .collect()
 }
 
 impl<'a> Gen<'a> {
@@ -177,8 +204,22 @@ impl<'a> Gen<'a> {
     fn wrong_key(&mut self, shape: &Shape, vals: &[Val], p: &[u8; 32]) -> (String, [u8; 32]) {
         let e = expected_seeds(shape, vals);
         let canon = ref_find(&e, p);
+        let mut force_first_empty = e.iter().any(|s| s.is_empty()) && self.rng.chance(1, 2);
         for _ in 0..6 {
-            let (name, key): (&str, Option<[u8; 32]>) = match self.rng.below(10) {
+            let choice = if force_first_empty { 10 } else { self.rng.below(12) };
+            force_first_empty = false;
+            let (name, key): (&str, Option<[u8; 32]>) = match choice {
+                10 | 11 => {
+                    // what an implementation that puts the bump into the FIRST empty component
+                    // (instead of the last slot) would derive
+                    let k = canon.and_then(|(_, cb)| {
+                        let i = e.iter().position(|s| s.is_empty())?;
+                        let mut f = e.clone();
+                        f[i] = vec![cb];
+                        ref_create(&f, p).ok()
+                    });
+                    ("bump-at-first-empty", k)
+                }
                 9 => {
                     // the right address with a single bit flipped (sloppy comparisons)
                     let k = canon.map(|(mut k, _)| {
@@ -323,7 +364,7 @@ impl<'a> Gen<'a> {
         let e = expected_seeds(shape, &vals_probe);
         let canon = ref_find(&e, &p);
         if let Some((ck, cb)) = canon {
-            if self.rng.chance(1, 2) {
+            if name == "bump-at-first-empty" || self.rng.chance(1, 2) {
                 self.emit(&format!("vbump {cb}"));
             }
             if self.rng.chance(1, 2) {
@@ -361,6 +402,103 @@ impl<'a> Gen<'a> {
         self.emit("vseeds");
         self.emit("access");
         self.rec.sample_current(5);
+    }
+
+    /// Histories on ONE `Seeded` value: failed validations (wrong seeds for this account) followed
+    /// by the right ones, then more calls after the success.
+    fn case_retry(&mut self, shape: &Shape, mode: Mode, ctx: [u8; 32]) {
+        self.begin("retry", &format!("s{}", shape.sid));
+        let right = self.setup(shape, mode, ctx);
+        let p = Self::seed_prog(mode, ctx);
+        let e = expected_seeds(shape, &right);
+        let canon = ref_find(&e, &p);
+        let key = canon.map(|c| c.0).unwrap_or_else(|| self.rand_key());
+        self.emit(&format!("key {}", hex(&key)));
+        // 1..3 failing calls with other values / wrong bumps
+        for _ in 0..self.rng.range(1, 3) {
+            match self.rng.below(3) {
+                0 => {
+                    self.new_vals(shape);
+                    self.emit("vseeds");
+                }
+                1 => {
+                    self.new_vals(shape);
+                    let b = canon.map(|c| c.1).unwrap_or(255);
+                    self.emit(&format!("vbump {b}"));
+                }
+                _ => {
+                    // right values, wrong bump
+                    self.emit(&vals_line(&right));
+                    let b = canon.map(|c| c.1.wrapping_sub(1 + self.rng.below(5) as u8)).unwrap_or(7);
+                    self.emit(&format!("vbump {b}"));
+                }
+            }
+            self.emit("access");
+            if self.rng.chance(1, 3) {
+                self.emit("signer");
+            }
+        }
+        // the right call on the same value
+        self.emit(&vals_line(&right));
+        if self.rng.chance(2, 3) {
+            self.emit("vseeds");
+        } else {
+            self.emit(&format!("vbump {}", canon.map(|c| c.1).unwrap_or(255)));
+        }
+        self.emit("access");
+        self.emit("signer");
+        // calls after the success: other values, other bump
+        self.new_vals(shape);
+        self.emit("vseeds");
+        let rb = self.rng.below(256);
+        self.emit(&format!("vbump {rb}"));
+        self.emit("access");
+        self.emit("signer");
+        self.rec.sample_current(6);
+    }
+
+    /// The same concatenated bytes split differently over the fields of two structs derive the same
+    /// address; the second validation needs no new hash-oracle entries.
+    fn case_resplit(&mut self, mode: Mode, ctx: [u8; 32]) {
+        let group = *self.rng.pick(crate::structs::RESPLIT_GROUPS);
+        let i = self.rng.below(group.len() as u64) as usize;
+        let j = (i + 1 + self.rng.below(group.len() as u64 - 1) as usize) % group.len();
+        let sa = self.shapes.iter().find(|s| s.sid == group[i]).unwrap().clone();
+        let sb = self.shapes.iter().find(|s| s.sid == group[j]).unwrap().clone();
+        self.begin("resplit", &format!("s{}-s{}", sa.sid, sb.sid));
+        let total: usize = sa.tys.iter().map(|t| match t { Ty::Arr(n) => *n, Ty::Key => 32, _ => 0 }).sum();
+        let flat = self.rng.bytes(total);
+        let m = match mode {
+            Mode::Cur => "cur".to_string(),
+            Mode::Fixed(k) => format!("p{k}"),
+        };
+        let p = Self::seed_prog(mode, ctx);
+        self.emit(&format!("prog {m} {}", hex(&ctx)));
+        self.emit(&struct_line(&sa));
+        self.rec.bump(&format!("struct:{:02}", sa.sid));
+        let va = split_into(&sa, &flat);
+        self.emit(&vals_line(&va));
+        self.emit("seeds");
+        let canon = ref_find(&expected_seeds(&sa, &va), &p);
+        let key = canon.map(|c| c.0).unwrap_or_else(|| self.rand_key());
+        self.emit(&format!("key {}", hex(&key)));
+        self.emit("vseeds");
+        self.emit("access");
+        // other split, same account key
+        self.emit(&struct_line(&sb));
+        self.rec.bump(&format!("struct:{:02}", sb.sid));
+        let vb = split_into(&sb, &flat);
+        self.emit(&vals_line(&vb));
+        self.emit("seeds");
+        self.emit(&format!("key {}", hex(&key)));
+        if self.rng.chance(1, 2) {
+            self.emit("vseeds");
+        } else {
+            self.emit(&format!("vbump {}", canon.map(|c| c.1).unwrap_or(255)));
+        }
+        let sel = self.client_sel(&p);
+        self.post_ok_ops(mode, sel, canon.map(|c| c.1).unwrap_or(255));
+        self.rec.sample_current(7);
     }
 
     fn case_noise(&mut self, shape: &Shape, mode: Mode, ctx: [u8; 32]) {
@@ -432,16 +570,23 @@ pub fn generate(rec: &mut Recorder, args: &Args) {
         g.case_agree(s, Mode::Fixed(1), [9; 32]);
         g.case_wrong(s, Mode::Cur, prog_bytes(2));
         g.case_bump(s, Mode::Fixed(2), [3; 32]);
+        g.case_retry(s, Mode::Cur, prog_bytes(1));
+    }
+    for _ in 0..8 {
+        g.case_resplit(Mode::Cur, prog_bytes(0));
+        g.case_resplit(Mode::Fixed(1), [5; 32]);
     }
     let n = if args.thorough() { 100_000 } else { 2_000 };
     for _ in 0..n {
         let s = g.shapes[g.rng.below(g.shapes.len() as u64) as usize].clone();
         let (mode, ctx) = g.pick_mode();
-        match g.rng.below(20) {
+        match g.rng.below(24) {
             0..=6 => g.case_agree(&s, mode, ctx),
             7..=10 => g.case_bump(&s, mode, ctx),
             11..=16 => g.case_wrong(&s, mode, ctx),
             17..=18 => g.case_sticky(&s, mode, ctx),
+            19..=21 => g.case_retry(&s, mode, ctx),
+            22 => g.case_resplit(mode, ctx),
             _ => g.case_noise(&s, mode, ctx),
         }
     }
